@@ -13,11 +13,12 @@ Definition case := LC.case.
 Definition created_by_add (c : cfgT) (x : layer) (p : bytes) (n : node) : bool :=
   let d := l_path x in
   match n with
-  | Dir => memb p ([d; build_path c x] ++
-                   match l_base x with
-                   | [] => [pathjoin [build_path c x; bs "root"]]
-                   | _ => [pathdir (work_path c x); work_path c x; pathdir (upper_path c x); upper_path c x]
-                   end)
+  | Dir => memb p (d :: filter (at_or_under d)
+                   (prefixes (build_path c x) ++
+                    match l_base x with
+                    | [] => [pathjoin [build_path c x; bs "root"]]
+                    | _ => prefixes (work_path c x) ++ prefixes (upper_path c x)
+                    end))
   | File content =>
     beq p (pathjoin [d; D_LayerconfigFile])
     || (match l_base x with
